@@ -58,6 +58,9 @@ _CTL_ASSUME = ["single event loop (handlers run sequentially)", "map iteration o
 # C19 also over the S-ctl stream: messages carrying several usage reports with different triggers (the flag octets of each
 # report on the wire against the word the data plane produced it with)
 PROPS["C19"]["streams"].append(_ctl(13, "urr", cases=12, tcases=120))
+# … and over the kernel-report path: a REPORT multicast through the real buffnetlink listener entry, where the data plane's
+# cause word (Reporting Triggers layout) is mapped to the Usage Report Trigger by name
+PROPS["C19"]["streams"].append(dict(name="krep", args=["net=12"], shards=2, shards_thorough=8, seed_per_shard=True, timeout=900, timeout_thorough=3000))
 PROPS["C19"]["trusted_base"] = PROPS["C19"]["trusted_base"] + _CTL_TB + [
     "external predicate (Driver/CtlProps.lean): the Usage Report Trigger octets of every usage report in a response / Session Report Request decode to the word the reference data plane produced that report with (TERMR / IMMER apart)"]
 
@@ -89,13 +92,13 @@ PROPS["C06"] = dict(
 )
 PROPS["C09"] = dict(
     module="UpfVerif.Props.C09",
-    streams=[_ctl(2, "trans")],
+    streams=[_ctl(2, "trans"), dict(name="tmoburst", args=["net=4"], timeout=600, timeout_thorough=1200)],
     rule="ctl profile 'trans' with the request counter positioned at 0, 2^24-2, 2^24-1, 2^24, 2^24+1, 2^32-2, 2^32-1, random; retry counts 0..3; "
          "matching / wrong-peer / wrong-sequence / duplicate / other-type responses; tx expiries at random points",
     trusted_base=_CTL_TB, assumptions=_CTL_ASSUME,
     level_text="Kernel-checked (Props/C09.lean) over Core.step/sendReq for every 32-bit counter value: wire sequence = low 24 bits = transaction key, so the response "
                "carrying the request's sequence number always matches; requests < 2^24 apart have distinct sequence numbers; expiry retransmits the identical message "
-               "while count < N, then abandons; at most 1+N transmissions; matching response releases; unmatched responses and stale expiries change nothing. Tie: S-ctl. answered_then_stale_timeout — when the response overtakes the queued timeout of a timer that has fired, the request is retired and the stale timeout does nothing (no retransmission after the answer); tx_timeout_keeps_rx; rx_timeout_keeps_tx / rx_timeouts_keep_tx — no run of retention expiries, whatever keys they carry, retries or abandons a request or sends anything (external predicate on the implementation: an expiry concerns the kind of transaction its timer was started for).",
+               "while count < N, then abandons; at most 1+N transmissions; matching response releases; unmatched responses and stale expiries change nothing. Tie: S-ctl. answered_then_stale_timeout — when the response overtakes the queued timeout of a timer that has fired, the request is retired and the stale timeout does nothing (no retransmission after the answer); tx_timeout_keeps_rx; rx_timeout_keeps_tx / rx_timeouts_keep_tx — no run of retention expiries, whatever keys they carry, retries or abandons a request or sends anything (external predicate on the implementation: an expiry concerns the kind of transaction its timer was started for). S-tmoburst runs the REAL timers: 100-300 unanswered requests whose timers all expire while the loop is held in a data-plane call; each is transmitted exactly 1+N times and then abandoned.",
     level_note="Trusted: Lean kernel; model of pfcp.go:273-283,153-175 and transaction.go:57-109 (checked against the code each run); timers are injected events.",
 )
 
@@ -262,7 +265,8 @@ PROPS["C02"] = dict(
 )
 PROPS["C03"] = dict(
     module="UpfVerif.Props.C03",
-    streams=[dict(name="drv", args=["corpus=/verif/corpus/drvmal.lines"], shards=4, shards_thorough=16, seed_per_shard=True, timeout=600, timeout_thorough=3000)],
+    streams=[dict(name="drv", args=["corpus=/verif/corpus/drvmal.lines"], shards=4, shards_thorough=16, seed_per_shard=True, timeout=600, timeout_thorough=3000),
+             _ctl(-1, "mix", cases=16, tcases=160)],   # the session layer above the driver: every Update IE for a rule the session has reaches the data plane
     rule="S-drv: random Create/Update QER/URR/BAR grouped IEs: rates over the full 40-bit range (UL != DL), all gate/QFI/RQI/PPI octets, 2- and 3-octet trigger words, "
          "measurement periods incl. 0 and 2^32-1 s, 64-bit volumes with every flag subset, children shuffled; periodic registration read from the real perio.Server after each URR operation",
     trusted_base=_DRV_TB, assumptions=_DRV_ASSUME + ["Measurement Period as a kernel attribute is outside the statement (the periodic server, not the kernel, times the reports)"],
